@@ -627,7 +627,12 @@ AbuseTable ==
      \* a failing instance Close whose error wraps one of the container's sentinels is reported like any other failure
      close_error_wrapping_sentinel_own_0 |-> AOK, close_error_wrapping_sentinel_own_1 |-> AOK,
      close_error_wrapping_sentinel_parent_0 |-> AOK, close_error_wrapping_sentinel_parent_1 |-> AOK,
-     close_error_wrapping_sentinel_provider_0 |-> AOK, close_error_wrapping_sentinel_provider_1 |-> AOK]
+     close_error_wrapping_sentinel_provider_0 |-> AOK, close_error_wrapping_sentinel_provider_1 |-> AOK,
+     \* a factory-style constructor that resolves a collaborator through the injected scope and wraps the collaborator's
+     \* failure in its own error: its own error is what the container wraps
+     lazy_ctor_own_error_scoped_err |-> AOK, lazy_ctor_own_error_scoped_panic |-> AOK,
+     lazy_ctor_own_error_transient_err |-> AOK, lazy_ctor_own_error_transient_panic |-> AOK,
+     lazy_ctor_own_error_singleton_err |-> AOK, lazy_ctor_own_error_singleton_panic |-> AOK]
 \* calls of the battery that also speak for other properties
 ReClose == {"C12", "C13", "C10", "C09"}
 AbuseTags == [value_disposables_closed |-> {"C10", "C12"},
